@@ -335,6 +335,7 @@ type cval struct {
 	Gr     []c07point // functions: graph on the probe points
 	Bad    string     // observation that does not conform to the expected type: a small class name
 	BadMsg string     // the full text behind Bad (summary only)
+	Named  bool       // functions: a named script function (a *node until it is wrapped)
 	DepD   bool       // generated templates: this leaf varies with the digest d of the arguments
 }
 
@@ -478,7 +479,7 @@ func (v *cval) sortMap() {
 // coq renders the value as a Gallina term of Boundary.Types.val.
 func (v *cval) coq() string {
 	if v.Bad != "" {
-		return "(VBad " + c07coqString(v.Bad) + ")"
+		return "(VBad " + coqStr(v.Bad) + ")"
 	}
 	list := func(l []*cval) string {
 		it := make([]string, len(l))
@@ -503,61 +504,51 @@ func (v *cval) coq() string {
 		return "(VStr " + c07coqString(v.S) + ")"
 	case ckStruct:
 		return "(VStruct " + list(v.L) + ")"
-	case ckPtr:
-		if v.Nil {
-			return "(VPtr None)"
-		}
-		return "(VPtr (Some " + v.L[0].coq() + "))"
 	case ckArr:
 		return "(VArr " + list(v.L) + ")"
+	}
+	if v.Nil {
+		return "VNil"
+	}
+	switch t.K {
+	case ckPtr:
+		return "(VPtr " + v.L[0].coq() + ")"
 	case ckSlice:
-		if v.Nil {
-			return "(VSlice None)"
-		}
-		return "(VSlice (Some " + list(v.L) + "))"
+		return "(VSlice " + list(v.L) + ")"
 	case ckMap:
-		if v.Nil {
-			return "(VMap None)"
-		}
-		it := make([]string, len(v.MK))
-		for i := range v.MK {
-			it[i] = "(" + v.MK[i].coq() + ", " + v.MV[i].coq() + ")"
-		}
-		return "(VMap (Some " + coqList(it) + "))"
+		return "(VMap " + list(v.MK) + " " + list(v.MV) + ")"
 	case ckErr:
-		if v.Nil {
-			return "(VIface None)"
-		}
 		switch v.EK {
 		case ceNew:
-			return "(VIface (Some (TOpaque " + coqStr("*errors.errorString") + ", VStr " + c07coqString(v.S) + ")))"
+			return "(VIface (TPtr (TStruct " + coqStr("errors.errorString") + " [TString])) (VPtr (VStruct [VStr " + c07coqString(v.S) + "])))"
 		case ceSentinel:
-			return fmt.Sprintf("(VIface (Some (TOpaque %s, VOpaque %d%%N)))", coqStr("*errors.errorString"), v.I)
+			return fmt.Sprintf("(VIface (TOpaque %s) (VOpaque %d%%N))", coqStr("sentinel"), v.I)
 		case ceE:
-			return "(VIface (Some (" + ctE.coq() + ", VStruct [VInt " + coqZ(v.I) + "])))"
+			return "(VIface " + ctE.coq() + " (VStruct [VInt " + coqZ(v.I) + "]))"
 		default:
-			return "(VIface (Some (" + c07ptr(ctPE).coq() + ", VPtr (Some (VStruct [VStr " + c07coqString(v.S) + "])))))"
+			return "(VIface " + c07ptr(ctPE).coq() + " (VPtr (VStruct [VStr " + c07coqString(v.S) + "])))"
 		}
 	case ckAny:
-		if v.Nil {
-			return "(VIface None)"
+		if v.Dyn.T.K == ckErr {
+			return v.Dyn.coq() // the dynamic type of an error value is its own
 		}
-		return "(VIface (Some (" + v.Dyn.T.coq() + ", " + v.Dyn.coq() + ")))"
+		return "(VIface " + v.Dyn.T.coq() + " " + v.Dyn.coq() + ")"
 	case ckFunc:
-		if v.Nil {
-			return "(VFunc None)"
-		}
 		it := make([]string, len(v.Gr))
 		for i, p := range v.Gr {
 			if p.Bad != "" {
-				it[i] = "(" + list(p.Args) + ", [VBad " + c07coqString(p.Bad) + "])"
+				it[i] = "(VPoint " + list(p.Args) + " [VBad " + coqStr(p.Bad) + "])"
 			} else {
-				it[i] = "(" + list(p.Args) + ", " + list(p.Res) + ")"
+				it[i] = "(VPoint " + list(p.Args) + " " + list(p.Res) + ")"
 			}
 		}
-		return "(VFunc (Some " + coqList(it) + "))"
+		rep := "RNative"
+		if v.Named {
+			rep = "RNode"
+		}
+		return "(VFunc " + rep + " " + coqList(it) + ")"
 	}
-	return "(VBad " + c07coqString("?") + ")"
+	return "(VBad " + coqStr("?") + ")"
 }
 
 func c07coqVals(l []*cval) string {
